@@ -154,7 +154,7 @@ func genConcShare(r *rng, idx int, st stats) caseOut {
 		}
 		return cl
 	}
-	variant := r.intn(3)
+	variant := []int{0, 1, 2, 2}[r.intn(4)]
 	// the option whose value differs per goroutine (variants 1 and 2)
 	own := -1
 	for i, o := range op.Opts {
@@ -185,10 +185,20 @@ func genConcShare(r *rng, idx int, st stats) caseOut {
 	case 1:
 		sharedOpts = nil
 	case 2:
-		// Redefine without the chosen value: it becomes a declared input
-		rest := append(append([]Opt(nil), op.Opts[:own]...), op.Opts[own+1:]...)
-		nf, err := f.Redefine(append([]am.Arg{nullLog}, rt.goOpts(rest)...)...)
-		if err != nil || len(nf.Input().Values()) == 0 {
+		// Redefine without one of the supplied values: it becomes a declared input
+		var nf *am.Func
+		for i, o := range op.Opts {
+			if !((o.Kind == "named" || o.Kind == "typed" || o.Kind == "namedsub" || o.Kind == "typedsub") && len(o.Vals) == 1 && o.Vals[0] != nil) {
+				continue
+			}
+			rest := append(append([]Opt(nil), op.Opts[:i]...), op.Opts[i+1:]...)
+			g, err := f.Redefine(append([]am.Arg{nullLog}, rt.goOpts(rest)...)...)
+			if err == nil && len(g.Input().Values()) > 0 {
+				nf = g
+				break
+			}
+		}
+		if nf == nil {
 			variant = 1
 			break
 		}
